@@ -79,11 +79,11 @@ def first_diff(a, b):
     return min(len(a), len(b))
 
 
-def check_case(ctx, enc, msg, origin, name=None, label='plain'):
+def check_case(ctx, enc, msg, origin, name=None, label='plain', self_ok=None):
     if too_wide(msg):
         ctx.count('skipped_too_wide')
         return
-    if not cases.self_consistent(msg):
+    if not (cases.self_consistent(msg) if self_ok is None else self_ok):
         ctx.count('r_self_fail')
         return
     spec = dict(origin=origin, shape=name, ids=msg.ids, nsub=msg.nsub, compressed=msg.compressed,
@@ -256,6 +256,52 @@ def run(ctx):
         if n % 3 == 0 and scoped(c[0].ids, cases.tables(c[1])[1]):
             ctx.count('compiling_encoder_cases')
             check_case(ctx, encc, c[0], 'random', label='compiling-encoder')
+    if ctx.shard % 4 == 0:
+        ncep_encodes(ctx, enc)
+
+
+def ncep_encodes(ctx, enc):
+    """LAST step (process-wide extra entries from here on): with in-stream style definitions registered - among them NCEP-style
+    sequences that consist of a replication descriptor and its factor only - the Encoder writes the bit stream R constructs for
+    the same lists, each list encoded twice with other lists in between (building one template must not change the next)."""
+    from pybufrkit.tables import TableGroupCacheManager
+    rng = ctx.rng
+    B, D = cases.tables(33)
+    Bx, Dx = dict(B), dict(D)
+    extra_b = {48001: ['VERIF NCEP ELEMENT A', 'NUMERIC', 1, -100, 12], 48002: ['VERIF NCEP ELEMENT B', 'CCITT IA5', 0, 0, 32]}
+    extra_d = {360002: [101000, 31001], 360003: [101000, 31002], 361001: [1001, 360002, 2001], 361002: [360002, 12001],
+               361003: [48001, 360003, 361002]}
+    for e, v in extra_b.items():
+        Bx[e] = type(next(iter(B.values())))(v) if not isinstance(next(iter(B.values())), list) else list(v)
+    Dx.update(extra_d)
+    try:
+        TableGroupCacheManager.invalidate()
+        TableGroupCacheManager.add_extra_entries(
+            {'%06d' % e: list(v) + ['', 0, 0] for e, v in extra_b.items()},
+            {'%06d' % s_: ['VERIF NCEP SEQUENCE', ['%06d' % i for i in mem]] for s_, mem in extra_d.items()})
+    except Exception as e:
+        ctx.notes.append('ncep encodes: registration unavailable: %r' % (e,))
+        return
+    lists = [[360002, 12001], [360002, 301012], [360002, 12001], [361001], [360003, 361001], [361002], [360002, 48001, 48002],
+             [1001, 360003, 361003], [361003], [360002, 361002]]
+    order = list(range(len(lists))) * 2
+    rng.shuffle(order)
+    for li in order:
+        ids = lists[li]
+        try:
+            msg = R.build_message(ids, Bx, Dx, R.Policy(rng), rng.choice([1, 2]), False, 4, dict(master_table_version=33),
+                                  inline_sequences=True)
+        except (R.Unsupported, KeyError) as e:
+            ctx.count('ncep_unsupported')
+            continue
+        # R must agree with itself on these bytes under the extended tables
+        try:
+            r = R.decode(msg.bytes, extra_B={e: Bx[e] for e in extra_b}, extra_D=extra_d, inline_sequences=True)
+            ok = all(a.labels == list(b.labels) and a.values == b.values for a, b in zip(msg.subsets, r['subsets']))
+        except Exception:
+            ok = False
+        ctx.count('ncep_encode_cases')
+        check_case(ctx, enc, msg, 'ncep-entries', 'ncep-%d' % li, self_ok=ok)
 
 
 def replay(ctx, case):
